@@ -14,6 +14,7 @@
                                                  the text for any modelled motion
     * `delete_any_motion`, `yank_any_motion`, `transform_any_motion` — the above composed, for
                                                  EVERY modelled motion / text object and count
+    * `repeat_find_type`, `repeat_find_fails` — `;` / `,`: direction and inclusiveness agree
     * `simple_motion_spans`, `f_target_is_char`, `col0_rule_drops_newline`, `motion_span_adjacent`
                                                — what the spans of the simple motions are
 -/
@@ -1019,16 +1020,18 @@ theorem textObject_inRange_repeat (isSpace sp : Char → Bool) (d : Doc) (h : In
       | some m =>
         have := findBwd_bound d c true count m hf
         by_cases hm : m ≠ 0
-        · simp only [hm, if_true]; apply inRange_of_start d h <;> omega
-        · simp only [hm, if_false]; exact inRange_zero d h _
-    · simp only [textObject, hdir]
+        · simp only []; rw [if_pos hm]; apply inRange_of_start d h <;> omega
+        · simp only []; rw [if_neg hm]; exact inRange_zero d h _
+    · have hb : (if reverse then !bw else bw) = false := by
+        cases h' : (if reverse then !bw else bw) <;> simp_all
+      simp only [textObject, hb, Bool.false_eq_true, if_false]
       cases hf : findFwd d c true count with
       | none => exact inRange_zero d h _
       | some m =>
         have := findFwd_bound d h c true count m hf
         by_cases hm : m ≠ 0
-        · simp only [hm, if_true]; apply inRange_of_start d h <;> omega
-        · simp only [hm, if_false]; exact inRange_zero d h _
+        · simp only []; rw [if_pos hm]; apply inRange_of_start d h <;> omega
+        · simp only []; rw [if_neg hm]; exact inRange_zero d h _
 
 /-- every modelled motion / text object yields offsets inside the text -/
 theorem textObject_inRange (isSpace sp : Char → Bool) (d : Doc) (h : Inv d) (count : Nat) (m : Motion)
@@ -2015,5 +2018,15 @@ example : (run exEnv exSt none (.delete (some 'a')) none (.f 'd')).map (fun s =>
 example : colI exSt.text ((textObject exSp exSp { exSt.doc with cur := 3 } 1 (.w false)).sorted.2 + 3) = 0 := by decide
 -- arguments are multiplied, a million and more counts as 1
 example : combineArgs (some 2) (some 3) = 6 ∧ combineArgs none none = 1 ∧ combineArgs (some 1000) (some 1000) = 1 := by decide
+-- `2fx d,` on "ax_bx_c": the find moves to 4, `,` searches backwards (exclusive): "x_b" is removed
+example : (runKeysAfterFind exEnv { exSt with text := "ax_bx_c".toList, cur := 0 } (some 2) (.f 'x')
+            none (.delete none) none true).map (fun s => (s.text, s.cur, s.clip))
+    = some ("ax_c".toList, 1, ⟨"x_b".toList, false⟩) := by decide
+-- `2Fx d,` from the end: `,` searches forwards (inclusive): "x_bx" is removed
+example : (runKeysAfterFind exEnv { exSt with text := "ax_bx_c".toList, cur := 6 } (some 2) (.F 'x')
+            none (.delete none) none true).map (fun s => (s.text, s.cur, s.clip))
+    = some ("a_c".toList, 1, ⟨"x_bx".toList, false⟩) := by decide
+example : textObject exSp exSp exSt.doc 1 (.repeatFind none true) = failed := by decide
+example : textObject exSp exSp exSt.doc 1 (.repeatFind (some ('z', false)) false) = failed := by decide
 end examples
 end Ptk.C08
